@@ -233,11 +233,21 @@ def _job(spec):
         stage[0] = "a second Runner(...) from the same dict objects"
         runner2 = ev.instantiate(S.ClassVal(ev, rcls), [th, ob], {})
         compare("a second Runner(...) from the same dict objects")
+        # the package-level entry point most users call
+        out3 = None
+        try:
+            entry = proj.func("yadism", "run_yadism")
+        except Exception:
+            entry = None
+        if entry is not None and spec.get("entry", True):
+            stage[0] = "run_yadism(theory, observables)"
+            out3 = ev.call(S.FuncVal(ev, entry), [th, ob], {})
+            compare("run_yadism(theory, observables)")
         # repeated construction sees the same configuration
         if snap(runner.attrs["configs"].attrs["theory"]) != snap(runner2.attrs["configs"].attrs["theory"]):
             problems.append("a second construction from the same dicts yields different theory parameters")
         # echo
-        for o_, tag in ((out1, "first"), (out2, "second")):
+        for o_, tag in ((out1, "first"), (out2, "second")) + (((out3, "run_yadism's"),) if out3 is not None else ()):
             d = first_difference(before_t, o_.attrs.get("theory"), "output.theory") or first_difference(before_o, o_.attrs.get("observables"), "output.observables")
             if d:
                 problems.append(f"{tag} output does not echo the given cards: {d}")
